@@ -53,6 +53,8 @@ func (s *Store) RHP4DebitAccount(account proto4.Account, usage proto4.Usage) err
 			return fmt.Errorf("failed to update balance: %w", err)
 		} else if err := distributeRHP4AccountUsage(tx, dbID, usage); err != nil {
 			return fmt.Errorf("failed to update contract funding: %w", err)
+		} else if err := incrementCurrencyStat(tx, metricAccountBalance, total, true, time.Now()); err != nil {
+			return fmt.Errorf("failed to update balance metric: %w", err)
 		}
 		return nil
 	})
